@@ -330,3 +330,10 @@ def extra(rep, impl_exe, model_exe, rng, tier):
     # returned barcodes must remain what they were when other symbols are encoded afterwards
     import held
     return held.held_phase(rep, impl_exe, rng, ['c128', 'c128n'], n=10 if tier == "quick" else 80)
+
+
+def public_line(line):
+    t = line.split(" ")
+    if t[0] == "c128" and len(t) == 3:
+        return "encfull %s %s" % ("c128" if t[1] == "1" else "c128n", t[2])
+    return None
